@@ -6,7 +6,9 @@
 int encrypt_rfbdes(void *out, int *out_len, const unsigned char key[8], const void *in, const size_t in_len) { return 0; }
 int decrypt_rfbdes(void *out, int *out_len, const unsigned char key[8], const void *in, const size_t in_len) { return 0; }
 void random_bytes(void *out, size_t len) { }
+char rfbEndianTest = (1==1);   /* as in main.c; needed by Swap32IfLE in SetCapInfo */
 #include "vncauth.c"
+#include "tightvnc-filetransfer/rfbtightproto.h"
 
 int main(void) {
   int i;
@@ -28,6 +30,20 @@ int main(void) {
     if (rfbProtocolVersionFormat[i] == '\n') printf("\\n"); else putchar(rfbProtocolVersionFormat[i]);
   }
   printf("\"\n");
+  {
+    rfbCapabilityInfo cap; unsigned char *p = (unsigned char *)&cap;
+    SetCapInfo(&cap, rfbAuthVNC, rfbStandardVendor);
+    printf("/-- the capability record rfbSendAuthCaps writes for VNC authentication -/\n");
+    printf("def tightCapAuthVNC : List UInt8 := [");
+    for (i = 0; i < (int)sz_rfbCapabilityInfo; i++) printf("%s%u", i ? ", " : "", p[i]);
+    printf("]\n");
+  }
+  N(rfbSecTypeTight);
+  N(rfbAuthVNC);
+  N(sz_rfbTunnelingCapsMsg);
+  N(sz_rfbAuthenticationCapsMsg);
+  N(sz_rfbCapabilityInfo);
+  N(sz_rfbInteractionCapsMsg);
   printf("def fixedkey : List UInt8 := [");
   for (i = 0; i < 8; i++) printf("%s%u", i ? ", " : "", fixedkey[i]);
   printf("]\n");
